@@ -118,4 +118,7 @@ func (s RegistrySourceFinal) FinalSourceAddr(realSource RemoteSource) RemoteSour
 // finalRegistrySourcePattern is a non-exhaustive regexp which looks only for
 // the expected three components of a RegistrySourceFinal string encoding: the
 // package address, version, and subpath. The subpath is optional.
-var finalRegistrySourcePattern = regexp.MustCompile(`^(.+?)@([^/]+)(//(.+))?$`)
+//
+// The "s" flag lets "." match a line break too: a sub-path may contain one, and
+// such an address prints with it.
+var finalRegistrySourcePattern = regexp.MustCompile(`(?s)^(.+?)@([^/]+)(//(.+))?$`)
